@@ -230,6 +230,8 @@ type Opts struct {
 	AbsentSubjects            bool // some referrers name a subject that is stored nowhere
 	NestedIndexes             bool
 	Titles                    bool // some layer descriptors carry a title annotation (file-store names), one fixed name per blob
+	TitleClash                bool // with Titles: two different blobs share one title (a file store must refuse the second)
+	URLsOnLayers              bool // some ordinary (distributable) layer and manifest descriptors carry the optional urls property
 }
 
 // DefaultOpts draws a random option set sized for n nodes.
@@ -425,7 +427,14 @@ func Generate(rng *rand.Rand, o Opts) *DAG {
 			id := b.pick(blobs)
 			ld := b.descOf(id)
 			if o.Titles && id%2 == 0 {
-				ld.Annotations = map[string]string{ocispec.AnnotationTitle: fmt.Sprintf("blob-%d.bin", id)}
+				title := fmt.Sprintf("blob-%d.bin", id)
+				if o.TitleClash && id <= 2 {
+					title = "clash.bin"
+				}
+				ld.Annotations = map[string]string{ocispec.AnnotationTitle: title}
+			}
+			if o.URLsOnLayers && rng.IntN(3) == 0 {
+				ld.URLs = []string{fmt.Sprintf("https://mirror.example.invalid/blobs/%d", id)}
 			}
 			layers = append(layers, ld)
 			succ = append(succ, id)
@@ -527,6 +536,9 @@ func Generate(rng *rand.Rand, o Opts) *DAG {
 			if p := b.g.Nodes[id].Platform; p != nil {
 				pp := *p
 				d.Platform = &pp
+			}
+			if o.URLsOnLayers && rng.IntN(3) == 0 {
+				d.URLs = []string{fmt.Sprintf("https://mirror.example.invalid/manifests/%d", id)}
 			}
 			ms = append(ms, d)
 			n.Succ = append(n.Succ, id)
